@@ -116,10 +116,9 @@ def _effect(rec):
         return "deliver-tx-result-changed"
     if o["base"] != o["with"]:
         return "committed-balance-delta-without-signature"
-    if not (o["hash_eq"] and o["next_eq"]):
-        return "committed-state-differs"
-    if not o["tx_eq"]:
-        return "tx-events-differ"
+    if not (o["hash_eq"] and o["next_eq"] and o["tx_eq"]):
+        # app hash (an account re-written in the auth store) and/or bank events in the tx response
+        return "observable-difference-without-balance-change"
     return "none"
 
 
